@@ -205,7 +205,61 @@ fn canon_field(entries: &[Vec<MRel>], substvars: &[String], sv_first: bool) -> S
     items.join(", ")
 }
 
-fn check_c13(text: &str, model: &MField, subst: bool) -> Vec<Viol> {
+/// Policy 7.1 / 5.6.10: the relationship fields of a source paragraph and of a binary paragraph
+pub const SOURCE_REL_FIELDS: [&str; 6] = ["Build-Depends", "Build-Depends-Indep", "Build-Depends-Arch", "Build-Conflicts", "Build-Conflicts-Indep", "Build-Conflicts-Arch"];
+pub const BINARY_REL_FIELDS: [&str; 10] = ["Pre-Depends", "Depends", "Recommends", "Suggests", "Enhances", "Breaks", "Conflicts", "Provides", "Replaces", "Built-Using"];
+
+/// The same normal form must come out when the field sits in a control file and the file, or its paragraph, is reformatted.
+fn check_c13_control(text: &str, expected: &str) -> Vec<Viol> {
+    use debian_control::lossless::control::Control;
+    use deb822_lossless::Indentation;
+    let mut out = vec![];
+    let folded = text.replace('\n', "\n ");
+    for (fi, field) in SOURCE_REL_FIELDS.iter().chain(BINARY_REL_FIELDS.iter()).enumerate() {
+        let in_source = fi < SOURCE_REL_FIELDS.len();
+        let doc = if in_source {
+            format!("Source: s\n{}: {}\nMaintainer: m\n\nPackage: p\nArchitecture: any\n", field, folded)
+        } else {
+            format!("Source: s\nMaintainer: m\n\nPackage: p\n{}: {}\nArchitecture: any\n", field, folded)
+        };
+        for via in 0..2 {
+            for (si, (ind, iel, one)) in [(Indentation::Spaces(1), false, None), (Indentation::FieldNameLength, true, Some(20usize))].into_iter().enumerate() {
+                let Ok(mut control) = Control::from_str(&doc) else {
+                    continue; // e.g. a whitespace-only continuation line: not a control file (C03's business)
+                };
+                // Source/Binary::wrap_and_sort re-point the handle to the reformatted paragraph: read the result from the handle
+                let printed = if via == 0 {
+                    control.wrap_and_sort(ind, iel, one);
+                    control.to_string()
+                } else if in_source {
+                    let Some(mut sp) = control.source() else { continue };
+                    sp.wrap_and_sort(ind, iel, one);
+                    sp.as_deb822().to_string()
+                } else {
+                    let Some(mut bp) = control.binaries().next() else { continue };
+                    bp.wrap_and_sort(ind, iel, one);
+                    format!("Source: s\n\n{}", bp.as_deb822())
+                };
+                let got = match Control::from_str(&printed) {
+                    Ok(c2) => c2.as_deb822().paragraphs().find_map(|p| p.get(field)),
+                    Err(e) => {
+                        out.push(viol("control-wrapper", format!("field {}: {:?} reformatted ({} setting {}) to {:?}, which does not parse: {}", field, doc, if via == 0 { "Control::wrap_and_sort" } else { "Source/Binary::wrap_and_sort" }, si, printed, e)));
+                        continue;
+                    }
+                };
+                if got.as_deref().map(|g| g.trim()) != Some(expected) {
+                    out.push(viol(
+                        "control-wrapper",
+                        format!("field {} with value {:?}: {} (setting {}) leaves {:?}; Relations::wrap_and_sort gives {:?}", field, text, if via == 0 { "Control::wrap_and_sort" } else { "Source/Binary::wrap_and_sort" }, si, got, expected),
+                    ));
+                }
+            }
+        }
+    }
+    out
+}
+
+fn check_c13(text: &str, model: &MField, subst: bool, through_control: bool) -> Vec<Viol> {
     let mut out = vec![];
     let (r, errs) = ll::Relations::parse_relaxed(text, subst);
     if !errs.is_empty() {
@@ -247,6 +301,11 @@ fn check_c13(text: &str, model: &MField, subst: bool) -> Vec<Viol> {
     let again2 = re.wrap_and_sort().to_string();
     if again2 != o {
         out.push(viol("idempotent", ctx(&format!("normalising the re-read output gives {:?}", again2))));
+    }
+    if through_control && out.is_empty() {
+        // control files always allow substitution variables
+        let expected = ll::Relations::parse_relaxed(text, true).0.wrap_and_sort().to_string();
+        out.extend(check_c13_control(text, &expected));
     }
     out
 }
@@ -303,9 +362,9 @@ impl Prop for RelProp {
         if c.v.iter().any(|x| *x != 0) || c.ident.is_some() {
             st.nontrivial += 1;
         }
-        let r = guard(budget_for(text.len()) * 8, || match self.0 {
+        let r = guard(budget_for(text.len() + 64) * 400, || match self.0 {
             RWhich::C10 => check_c10(&text, &model, c.subst),
-            RWhich::C13 => check_c13(&text, &model, c.subst),
+            RWhich::C13 => check_c13(&text, &model, c.subst, c.ident.is_none() && c.v.iter().filter(|x| **x != 0).count() <= 1),
         });
         match r {
             Ok(vs) => {
